@@ -66,8 +66,13 @@ def run(ctx):
         pick = late[ctx.seed % 7::7][:14]
         open(cases, "a").write("\n".join(pick) + "\n")
         shards = 14
+        # the same kind of scenario with a file of more than 1024 leaves in the large bundle (root blob > 64 KiB)
+        bigcases = os.path.join(ctx.work, "bigfile.ndjson")
+        open(bigcases, "w").write("\n".join(late[(ctx.seed + 3) % 7::7][:6]) + "\n")
     results = [vlib.replay_sharded(ctx, "purge", cases, "purge", ["--seed", str(ctx.seed)] + (["--crc"] if ctx.seed % 2 else []),
                                    shards=shards, timeout=6000)]
+    if not ctx.thorough:
+        results.append(vlib.replay_sharded(ctx, "purge", bigcases, "bigfile", ["--seed", str(ctx.seed), "--big-file"], shards=6, timeout=6000))
     tot = vlib.account(ctx, results)
     ctx.notes.update(scenarios_replayed=tot["behaviours"], steps=tot["steps"], distinct_nontrivial=tot["nontrivial"],
                      rule="scenario = (history of <= 3 uploads/deletions over 4 bundles sharing deduplicated blobs, incl. re-use of "
